@@ -26,6 +26,16 @@ def showListeners (s : St) (n : Nat) : String :=
 def showState (s : St) (n : Nat) : String :=
   s!"cur={s.c.current} acc={showB s.c.accepting} open={s.open_.length} " ++ showListeners s n
 
+def protoOf : String → Proto
+  | "dns" => .dns | "dnscrypt" => .dnscrypt | "https" => .doh | "quic" => .doq | _ => .dot
+
+def showWiredCtr : Wired Counter → String
+  | .rejected => "rejected" | .panic => "panic" | .off => "off"
+  | .on k => s!"on {k.stop} {k.resume} {k.current} {showB k.accepting}"
+
+def showWiredNat : Wired Nat → String
+  | .rejected => "rejected" | .panic => "panic" | .off => "off" | .on n => s!"sema {n}"
+
 def doOp (s : S) (op : Op) : S × String :=
   let r := step s.v s.st op
   ({ s with st := r.1 }, showOut r.2)
@@ -62,6 +72,15 @@ def step (s : S) : List String → S × String
   | ["q"] => let p := s.pipe.step .query; ({ s with pipe := p }, showPipe p)
   | ["done"] => let p := s.pipe.step .done; ({ s with pipe := p }, showPipe p)
   | ["timeout"] => let p := s.pipe.step .timeout; ({ s with pipe := p }, showPipe p)
+  | ["wconn", present, enabled, stop, resume, addrs] =>
+    let c : Option ConnLimitYaml :=
+      if bool! present then some { enabled := bool! enabled, stop := nat! stop, resume := nat! resume }
+      else none
+    (s, showWiredCtr (ConnLimitYaml.wire c (nat! addrs)))
+  | ["wtcp", present, enabled, count, proto] =>
+    let c : Option TcpYaml :=
+      if bool! present then some { enabled := bool! enabled, count := nat! count } else none
+    (s, showWiredNat ((protoOf proto).wireTcp c))
   | _ => (s, "bad-op")
 
 def main : IO Unit := loop step {}
